@@ -47,6 +47,14 @@ type c08Harness struct {
 	Prologue  []Op    `json:"prologue"`
 	Threads   [][]cOp `json:"threads"`
 	Schedule  []int32 `json:"schedule,omitempty"`
+	Prop      string  `json:"prop,omitempty"` // property the harness is run for ("" = C08)
+}
+
+func (h c08Harness) prop() string {
+	if h.Prop != "" {
+		return h.Prop
+	}
+	return "C08"
 }
 
 type c08Event struct {
@@ -350,7 +358,7 @@ func c08Explore(r *vcore.Run, h c08Harness, bound int, futex bool, deadline time
 		hh.Schedule = choices
 		if res.Failed != 0 {
 			kind := map[int]string{1: "deadlock", 2: "horizon", 3: "HARNESS-ERROR/nondeterminism", 4: "HARNESS-ERROR/real-block"}[res.Failed]
-			r.Violate("sched", "C08/"+c08FP(h)+"/"+kind, hh, "every schedule runs to completion", res.FailMsg)
+			r.Violate("sched", h.prop()+"/"+c08FP(h)+"/"+kind, hh, "every schedule runs to completion", res.FailMsg)
 			return false
 		}
 		if futex {
@@ -368,10 +376,10 @@ func c08Explore(r *vcore.Run, h c08Harness, bound int, futex bool, deadline time
 				again = !ok2
 			}
 			if !again {
-				r.Violate("sched", "C08/HARNESS-ERROR/violation-not-reproducible/"+c08FP(h), hh, "the same schedule gives the same verdict", why)
+				r.Violate("sched", h.prop()+"/HARNESS-ERROR/violation-not-reproducible/"+c08FP(h), hh, "the same schedule gives the same verdict", why)
 				return false
 			}
-			r.Violate("sched", "C08/"+c08FP(h)+"/not-linearizable", hh, "some real-time-respecting order is accepted by the reference model", why)
+			r.Violate("sched", h.prop()+"/"+c08FP(h)+"/not-linearizable", hh, "some real-time-respecting order is accepted by the reference model", why)
 			r.Outcome("not-linearizable")
 		} else {
 			r.Outcome("linearizable")
@@ -577,11 +585,11 @@ func c08Replay(r *vcore.Run, sub string, raw json.RawMessage) {
 	e := &c08Exec{h: h}
 	res := vsched.Run(h.Schedule, false, e.body)
 	if res.Failed != 0 {
-		r.Violate("sched", "C08/"+c08FP(h)+"/failed", h, "runs to completion", res.FailMsg)
+		r.Violate("sched", h.prop()+"/"+c08FP(h)+"/failed", h, "runs to completion", res.FailMsg)
 		return
 	}
 	e.epilogue()
 	if ok, why := e.linearizable(); !ok {
-		r.Violate("sched", "C08/"+c08FP(h)+"/not-linearizable", h, "linearizable", why)
+		r.Violate("sched", h.prop()+"/"+c08FP(h)+"/not-linearizable", h, "linearizable", why)
 	}
 }
